@@ -32,6 +32,7 @@ structure Conf where
   nsKEK : Bytes                            -- GetKEKByLabel(SenderID), empty when none
   asLabel : Bool                           -- GetASKEKLabelByDevEUI returned a label
   asKEK : Bytes
+  lookupFails : Bool := false              -- one of GetKEKByLabel / GetASKEKLabelByDevEUI returned an error
   deriving Repr
 
 structure Ans where
@@ -187,6 +188,7 @@ def serve (E : BlockCipher) (q : Req) (c : Conf) : Ans :=
   match c.device with
   | none => base 400 "UnknownDevEUI"
   | some (nwkKey, appKey, nonce) =>
+    if c.lookupFails then base 500 "Other" else
     match (if q.rejoin then rejoinFlow E q c nwkKey appKey nonce else joinFlow E q c nwkKey appKey nonce) with
     | .ok b => { base 200 "Success" with phy := b.phy, sNwkSIntKey := b.sNwkSIntKey, fNwkSIntKey := b.fNwkSIntKey, nwkSEncKey := b.nwkSEncKey,
                                          nwkSKey := b.nwkSKey, appSKey := b.appSKey }
